@@ -219,7 +219,17 @@ pub struct Built {
     /// number of runs that were also replayed on a fresh instance whose `commit()` was never called
     pub fresh_runs: std::sync::atomic::AtomicUsize,
     pub fresh_pruned_runs: std::sync::atomic::AtomicUsize,
+    /// number of `run` calls so far, and the first call's (witness map, outcome class, byte fingerprint): the first
+    /// call is repeated after other calls have been made on the same instance and must give the same bytes
+    pub runs: std::sync::atomic::AtomicUsize,
+    pub first_run: std::sync::Mutex<Option<(WitnessValues, &'static str, u64)>>,
+    /// the same for `satisfy_with_env` calls (kept by C18): (witness map, (lock_time, sequence), class, fingerprint)
+    pub pruned_calls: std::sync::atomic::AtomicUsize,
+    pub first_pruned: std::sync::Mutex<Option<(WitnessValues, (u32, u32), &'static str, u64)>>,
 }
+
+/// The first call of `run` on an instance is repeated as call number 4 and 18 (after 3 resp. 17 other calls).
+pub const REPEAT_FIRST_AT: [usize; 2] = [3, 17];
 
 /// How many runs per built program are repeated on a fresh `instantiate` result that is satisfied before
 /// anything called `commit()` on it (the order used by `SatisfiedProgram::new` and simc).
@@ -242,7 +252,7 @@ pub fn build(text: &str, args: Arguments, debug: bool) -> Result<Built, CompileO
         Ok(c) => c,
         Err(p) => return Err(CompileOutcome::Panic(format!("commit: {p}"))),
     };
-    Ok(Built { template, compiled, cmr, fresh, fresh_runs: Default::default(), fresh_pruned_runs: Default::default() })
+    Ok(Built { template, compiled, cmr, fresh, fresh_runs: Default::default(), fresh_pruned_runs: Default::default(), runs: Default::default(), first_run: Default::default(), pruned_calls: Default::default(), first_pruned: Default::default() })
 }
 
 struct OnRef<'a> {
@@ -333,7 +343,19 @@ pub fn exec_node(node: &RedeemNode<Elements>, env: &Env) -> RunOutcome {
 
 /// satisfy -> redeem CMR check -> encode -> decode -> exec under `env`.
 pub fn run(built: &Built, witness: WitnessValues, env: &Env) -> RunOutcome {
-    let committed = run_on(&built.compiled, built.cmr, witness.clone(), env);
+    let n = built.runs.fetch_add(1, std::sync::atomic::Ordering::Relaxed);
+    let (committed, fp) = run_on_bytes(&built.compiled, built.cmr, witness.clone(), env);
+    if n == 0 {
+        *built.first_run.lock().unwrap() = Some((witness.clone(), committed.class(), fp));
+    } else if REPEAT_FIRST_AT.contains(&n) {
+        let first = built.first_run.lock().unwrap().clone();
+        if let Some((w0, class0, fp0)) = first {
+            let (again, fp1) = run_on_bytes(&built.compiled, built.cmr, w0, env);
+            if again.class() != class0 || fp1 != fp0 {
+                return RunOutcome::OrderDependent(format!("the first satisfy() call on this instance gave {class0} / bytes {fp0:016x}; repeated after {n} other calls it gives {} / bytes {fp1:016x}", again.class()));
+            }
+        }
+    }
     if let Some((args, debug)) = &built.fresh {
         if built.fresh_runs.fetch_add(1, std::sync::atomic::Ordering::Relaxed) < FRESH_RUNS_PER_PROGRAM {
             let fresh = match guard(|| built.template.instantiate(args.clone(), *debug)) {
@@ -351,6 +373,17 @@ pub fn run(built: &Built, witness: WitnessValues, env: &Env) -> RunOutcome {
 
 /// satisfy -> CMR comparison -> witness typing -> encode -> decode -> execute, on one compiled instance
 pub fn run_on(compiled: &CompiledProgram, cmr: Cmr, witness: WitnessValues, env: &Env) -> RunOutcome {
+    run_on_bytes(compiled, cmr, witness, env).0
+}
+
+/// `run_on`, also returning a fingerprint of the encoded redeem program (program bytes + witness bytes)
+pub fn run_on_bytes(compiled: &CompiledProgram, cmr: Cmr, witness: WitnessValues, env: &Env) -> (RunOutcome, u64) {
+    let mut fp = 0u64;
+    let o = run_on_inner(compiled, cmr, witness, env, &mut fp);
+    (o, fp)
+}
+
+fn run_on_inner(compiled: &CompiledProgram, cmr: Cmr, witness: WitnessValues, env: &Env, fp: &mut u64) -> RunOutcome {
     let built = OnRef { compiled, cmr };
     let sat = match guard(|| built.compiled.satisfy(witness)) {
         Ok(Ok(s)) => s,
@@ -367,6 +400,7 @@ pub fn run_on(compiled: &CompiledProgram, cmr: Cmr, witness: WitnessValues, env:
         Ok(x) => x,
         Err(p) => return RunOutcome::ExecPanic(format!("encode: {p}")),
     };
+    *fp = crate::report::fxhash(&p) ^ crate::report::fxhash(&w).rotate_left(17);
     decode_and_exec(p, w, built.cmr, env)
 }
 
@@ -440,6 +474,17 @@ pub fn run_pruned(built: &Built, witness: WitnessValues, env: &Env) -> RunOutcom
 }
 
 pub fn run_pruned_on(compiled: &CompiledProgram, cmr: Cmr, witness: WitnessValues, env: &Env) -> RunOutcome {
+    let mut fp = 0u64;
+    run_pruned_inner(compiled, cmr, witness, env, &mut fp)
+}
+
+pub fn run_pruned_on_bytes(compiled: &CompiledProgram, cmr: Cmr, witness: WitnessValues, env: &Env) -> (RunOutcome, u64) {
+    let mut fp = 0u64;
+    let o = run_pruned_inner(compiled, cmr, witness, env, &mut fp);
+    (o, fp)
+}
+
+fn run_pruned_inner(compiled: &CompiledProgram, cmr: Cmr, witness: WitnessValues, env: &Env, fp: &mut u64) -> RunOutcome {
     let built = OnRef { compiled, cmr };
     let sat = match guard(|| built.compiled.satisfy_with_env(witness, Some(env))) {
         Ok(Ok(s)) => s,
@@ -456,6 +501,7 @@ pub fn run_pruned_on(compiled: &CompiledProgram, cmr: Cmr, witness: WitnessValue
         Ok(x) => x,
         Err(p) => return RunOutcome::ExecPanic(format!("encode: {p}")),
     };
+    *fp = crate::report::fxhash(&p) ^ crate::report::fxhash(&w).rotate_left(17);
     decode_and_exec(p, w, built.cmr, env)
 }
 
